@@ -32,8 +32,10 @@ func (c *Ctx) posOf(p token.Pos) string {
 func (c *Ctx) addObl(s *State, o *Obligation) {
 	if s != nil {
 		if k := s.inAbstractLoop(); k > 0 {
-			c.skippedAbs[k]++
-			return
+			if ls := c.Spec.Loops[k]; !(ls != nil && ls.Shallow && strings.HasPrefix(o.Kind, "assert@")) {
+				c.skippedAbs[k]++
+				return
+			}
 		}
 	}
 	c.Obls = append(c.Obls, o)
@@ -503,7 +505,7 @@ func (c *Ctx) run(s *State) (out []*State) {
 	steps := 0
 	for {
 		fr := s.Frame
-		if fr.PC == 0 && fr.Caller == nil && s.inAbstractLoop() > 0 {
+		if k := s.inAbstractLoop(); fr.PC == 0 && fr.Caller == nil && k > 0 && !c.Spec.Loops[k].Shallow {
 			// the body of a loop declared abstract is not explored (its effects are the havoc at the loop head; what
 			// returns from inside the body would have to establish is not checked - stated with the assumption)
 			return nil
@@ -1666,7 +1668,10 @@ func (s *State) runGhost(fr *Frame, anchor string) {
 	}
 	for _, g := range fr.Spec.Ghost {
 		if g.Anchor != anchor {
-			continue
+			// `before F#*` / `after F#*`: every occurrence of the call
+			if !(strings.HasSuffix(g.Anchor, "#*") && strings.HasPrefix(anchor, strings.TrimSuffix(g.Anchor, "*")) && !strings.Contains(anchor[len(g.Anchor)-1:], "#")) {
+				continue
+			}
 		}
 		if c.ghostFired == nil {
 			c.ghostFired = map[*GhostStmt]bool{}
@@ -1766,9 +1771,45 @@ func (s *State) havocAllHeap(reason string) {
 			s.C.assume("A-CAPTURE: locals shared only with the goroutines started by " + s.C.Key + " keep their values across calls without a contract")
 		}
 	}
+	// A-PRIVATE: the backing array of a local slice variable that only this function ever indexes, re-slices and
+	// appends to (its value is never handed to a call, stored in the heap or captured) cannot be reached by called
+	// code: its cells keep their contents across a havoc
+	type keptRow struct {
+		cn, cs string
+		base   Term
+		row    Term
+	}
+	var rows []keptRow
+	if top != nil {
+		for _, a := range s.C.privateSliceVars(top.Fn) {
+			l, ok := top.Vals[a].(*Loc)
+			if !ok || l.Kind != LocLocal {
+				continue
+			}
+			v, live := s.Cells[l.Cell]
+			if !live {
+				continue
+			}
+			st, ok := s.C.under(l.Cell.ty).(*types.Slice)
+			if !ok {
+				continue
+			}
+			cn, cs := s.C.elemComp(st.Elem())
+			base := s.name("pv_base", "Int", fmt.Sprintf("(s.base %s)", v))
+			row := s.name("pv_row", "(Array Int "+s.C.sortOf(st.Elem())+")", fmt.Sprintf("(select %s %s)", s.comp(cn, cs), base))
+			rows = append(rows, keptRow{cn, cs, base, row})
+		}
+		if len(rows) > 0 {
+			s.C.assume("A-PRIVATE: backing arrays of local slices that never leave " + s.C.Key + " are not written by called code")
+		}
+	}
 	defer func() {
 		for _, k := range keep {
 			s.store(k.l, k.t)
+		}
+		for _, r := range rows {
+			cur := s.comp(r.cn, r.cs)
+			s.setComp(r.cn, r.cs, fmt.Sprintf("(ite (= %s 0) %s (store %s %s %s))", r.base, cur, cur, r.base, r.row))
 		}
 	}()
 	names := make([]string, 0, len(s.Heap))
@@ -2101,4 +2142,207 @@ func (c *Ctx) privateBoxes(fn *ssa.Function) []*ssa.Alloc {
 	}
 	c.privBoxes[fn] = out
 	return out
+}
+
+// privateSliceVars: local (non-escaping) variables of slice type whose values are only ever nil, make(...), an append to
+// or a re-slice of the variable itself, and whose loaded values are only indexed, measured, ranged over, re-sliced,
+// appended to (with the result going back into the variable) or returned.
+func (c *Ctx) privateSliceVars(fn *ssa.Function) []*ssa.Alloc {
+	if c.privSlices == nil {
+		c.privSlices = map[*ssa.Function][]*ssa.Alloc{}
+	}
+	if v, ok := c.privSlices[fn]; ok {
+		return v
+	}
+	var out []*ssa.Alloc
+	for _, b := range fn.Blocks {
+		for _, ins := range b.Instrs {
+			a, ok := ins.(*ssa.Alloc)
+			if !ok || a.Heap || a.Referrers() == nil {
+				continue
+			}
+			pt, ok := a.Type().Underlying().(*types.Pointer)
+			if !ok {
+				continue
+			}
+			if _, ok := c.under(pt.Elem()).(*types.Slice); !ok {
+				continue
+			}
+			if c.sliceVarPrivate(a) {
+				out = append(out, a)
+			}
+		}
+	}
+	if os.Getenv("VCGO_TRACE") != "" {
+		for _, a := range out {
+			fmt.Fprintf(os.Stderr, "private slice var: %s in %s\n", a.Comment, fn.Name())
+		}
+	}
+	c.privSlices[fn] = out
+	return out
+}
+
+func (c *Ctx) sliceVarPrivate(a *ssa.Alloc) bool {
+	isLoadOfA := func(v ssa.Value) bool {
+		u, ok := v.(*ssa.UnOp)
+		return ok && u.Op == token.MUL && u.X == a
+	}
+	// a value derived from the variable (a load, a re-slice of one, an append to one) may only flow back into it
+	var derivedOK func(v ssa.Value, depth int) bool
+	elemAddrOK := func(ia ssa.Value) bool {
+		refs := ia.Referrers()
+		if refs == nil {
+			return false
+		}
+		for _, r := range *refs {
+			switch r := r.(type) {
+			case *ssa.UnOp:
+				if r.Op != token.MUL {
+					return false
+				}
+			case *ssa.Store:
+				if r.Val == ia {
+					return false
+				}
+			case *ssa.DebugRef:
+			case *ssa.FieldAddr:
+				fr := r.Referrers()
+				if fr == nil {
+					return false
+				}
+				for _, q := range *fr {
+					switch q := q.(type) {
+					case *ssa.UnOp:
+						if q.Op != token.MUL {
+							return false
+						}
+					case *ssa.Store:
+						if q.Val == ssa.Value(r) {
+							return false
+						}
+					case *ssa.DebugRef:
+					default:
+						return false
+					}
+				}
+			default:
+				return false
+			}
+		}
+		return true
+	}
+	derivedOK = func(v ssa.Value, depth int) bool {
+		if depth > 6 {
+			return false
+		}
+		refs := v.Referrers()
+		if refs == nil {
+			return false
+		}
+		for _, r := range *refs {
+			switch r := r.(type) {
+			case *ssa.Store:
+				if r.Val == v && r.Addr != ssa.Value(a) {
+					return false
+				}
+				if r.Addr == v {
+					return false
+				}
+			case *ssa.IndexAddr:
+				if r.X != v || !elemAddrOK(r) {
+					return false
+				}
+			case *ssa.Slice:
+				if r.X != v || !derivedOK(r, depth+1) {
+					return false
+				}
+			case *ssa.Range, *ssa.DebugRef, *ssa.Return:
+			case *ssa.Call:
+				bi, ok := r.Call.Value.(*ssa.Builtin)
+				if !ok {
+					return false
+				}
+				switch bi.Name() {
+				case "len", "cap":
+				case "append":
+					if len(r.Call.Args) == 0 || r.Call.Args[0] != v {
+						return false
+					}
+					for _, x := range r.Call.Args[1:] {
+						if x == v {
+							return false
+						}
+					}
+					if !derivedOK(r, depth+1) {
+						return false
+					}
+				default:
+					return false
+				}
+			case *ssa.BinOp:
+				// comparison with nil
+			default:
+				return false
+			}
+		}
+		return true
+	}
+	for _, r := range *a.Referrers() {
+		switch r := r.(type) {
+		case *ssa.Store:
+			if r.Val == ssa.Value(a) {
+				return false
+			}
+			switch x := r.Val.(type) {
+			case *ssa.Const:
+				if !x.IsNil() {
+					return false
+				}
+			case *ssa.MakeSlice:
+				if !derivedOK(x, 0) {
+					return false
+				}
+			case *ssa.Call:
+				bi, ok := x.Call.Value.(*ssa.Builtin)
+				if !ok || bi.Name() != "append" || len(x.Call.Args) == 0 || !isLoadOfA(x.Call.Args[0]) {
+					return false
+				}
+			case *ssa.Slice:
+				if na, ok := x.X.(*ssa.Alloc); ok && (na.Comment == "makeslice" || na.Comment == "slicelit") && na.Referrers() != nil {
+					// make([]T, const) / []T{...}: a new array that only this slice expression (and the literal's
+					// element initialisers) refer to
+					for _, q := range *na.Referrers() {
+						switch q := q.(type) {
+						case *ssa.Slice:
+							if q != x {
+								return false
+							}
+						case *ssa.IndexAddr:
+							if !elemAddrOK(q) {
+								return false
+							}
+						case *ssa.DebugRef:
+						default:
+							return false
+						}
+					}
+					if !derivedOK(x, 0) {
+						return false
+					}
+				} else if !isLoadOfA(x.X) {
+					return false
+				}
+			default:
+				return false
+			}
+		case *ssa.UnOp:
+			if r.Op != token.MUL || !derivedOK(r, 0) {
+				return false
+			}
+		case *ssa.DebugRef:
+		default:
+			return false
+		}
+	}
+	return true
 }
